@@ -72,6 +72,11 @@ def cases(tier, seed):
                         continue
                     out.append(dict(name=f"detector-T{T}-spp{spp}-prev{P}-min_{mn}-max_{mx}", kind="detector", T=T, spp=spp, P=P, mn=mn, mx=mx))
     out.append(dict(name="loop-T3-periodic", kind="loop", T=3, scene="periodic"))
+    # the real EnergyThresholdCondition inside the real loop, with max_steps beyond the configured total (seeded change C07b)
+    out.append(dict(name="loop-energy-T3-max6", kind="loop_energy", T=3, mx=6, mn=2))
+    if tier != "quick":
+        out.append(dict(name="loop-energy-T4-max4", kind="loop_energy", T=4, mx=4, mn=2))
+        out.append(dict(name="loop-energy-T4-max9-min6", kind="loop_energy", T=4, mx=9, mn=6))
     if tier != "quick":
         out.append(dict(name="loop-T5-periodic", kind="loop", T=5, scene="periodic"))
         out.append(dict(name="loop-T3-pml", kind="loop", T=3, scene="pml"))
@@ -80,7 +85,7 @@ def cases(tier, seed):
 
 def run_case(c, case):
     c.functions.update(META["functions"])
-    {"timestep": _timestep, "energy": _energy, "detector": _detector, "loop": _loop}[case["kind"]](c, case)
+    {"timestep": _timestep, "energy": _energy, "detector": _detector, "loop": _loop, "loop_energy": _loop_energy}[case["kind"]](c, case)
 
 
 def _scene(T, detector=False, kind="periodic"):
@@ -476,3 +481,79 @@ def _loop(c, case):
     nz = [i for i in range(Ef.size) if abs(plain[T][0].reshape(-1)[i] - plain[1][0].reshape(-1)[i]) > 1e-12 * scale]
     if not nz:
         raise Inconclusive("plain-run states do not differ between steps: the state obligations would be vacuous")
+
+
+def _loop_energy(c, case):
+    """run_fdtd with the real EnergyThresholdCondition (threshold symbolic, min/max concrete, max possibly beyond the
+    configured total): the run stops at the first step t >= min_steps whose total energy is below the threshold, never
+    later than min(max_steps, total steps), and the state is that of the plain run of that many steps."""
+    from fdtdx.core.physics.metrics import compute_energy
+    from fdtdx.fdtd.forward import forward
+    from fdtdx.fdtd.stop_conditions import EnergyThresholdCondition
+    from fdtdx.fdtd.wrapper import run_fdtd
+
+    T, mx, mn = case["T"], case["mx"], case["mn"]
+    S = _scene(T, detector=True, kind="periodic")
+    arr, oc, cfg, key = S["arrays"], S["objects"], S["config"], S["key"]
+    rkey = next(iter(arr.detector_states["det"].keys()))
+    c.functions.add("fdtd.fdtd.checkpointed_fdtd loop bound with EnergyThresholdCondition(max_steps > time_steps_total)")
+    c.bounds.update(T=T, max_steps=mx, min_steps=mn)
+    orig_validate = EnergyThresholdCondition._validate
+
+    def run(thr):
+        # stub: _validate compares the threshold with 0 in Python, which a traced threshold cannot answer; thr > 0 is assumed instead
+        EnergyThresholdCondition._validate = lambda self, state, config, objects: None
+        try:
+            cd = EnergyThresholdCondition(threshold=thr, min_steps=mn, max_steps=mx)
+            st = run_fdtd(arr, oc, cfg, key, stopping_condition=cd, show_progress=False)
+        finally:
+            EnergyThresholdCondition._validate = orig_validate
+        return st[0], st[1].fields.E, st[1].fields.H, st[1].detector_states["det"][rkey]
+
+    thr = z3.Real("thr")
+    c.symvars += 1
+    it = jx.Interp(unroll_bound=max(T, mx) + 3)
+    it.while_exit_chain = True
+    t0 = time.time()
+    (tf, Ef, Hf, Df), tr = jx.call(run, jx.obj0(thr), interp=it)
+    c.interp_s += time.time() - t0
+    for u in it.unwinding:
+        c.prove("unwinding: the loop has ended within the unrolling bound", u, [thr > 0], None, key="loop-energy:unwinding")
+    plain, en = [], []
+    st = (jnp.asarray(0, dtype=jnp.int32), arr.reset())
+    for i in range(T + 1):
+        plain.append((np.asarray(st[1].fields.E), np.asarray(st[1].fields.H), np.asarray(st[1].detector_states["det"][rkey])))
+        en.append(float(jnp.sum(compute_energy(st[1].fields.E, st[1].fields.H, st[1].inv_permittivities, st[1].inv_permeabilities))))
+        if i < T:
+            st = forward(st, cfg, oc, key, True, False, True)
+    cap = min(T, mx)
+    # continue at step t  <=>  t < cap and (t < min_steps or not energy_t < thr)
+    cont = [z3.BoolVal(True) if i < mn else z3.Not(z3.RealVal(Fraction(en[i])) < thr) for i in range(cap)]
+
+    def pick(vals):
+        acc = vals[cap]
+        for i in range(cap - 1, -1, -1):
+            acc = jx.ew(lambda a, b, i=i: sc.ite(z3.Not(cont[i]), a, b), vals[i], acc)
+        return acc
+
+    s_star = pick([np.asarray(i) for i in range(cap + 1)])
+    scale = 1.0 + max(float(np.max(np.abs(p[k]))) for p in plain for k in range(3))
+
+    def replay(m):
+        v = float(model_value(m, thr))
+        got = run(jnp.asarray(v))
+        s = next((i for i in range(cap) if i >= mn and en[i] < v), cap)
+        ok_state = int(got[0]) <= T and max(float(np.max(np.abs(np.asarray(got[1 + k]) - plain[min(int(got[0]), T)][k]))) for k in range(3)) / scale <= 1e-7
+        return int(got[0]) != s or not ok_state, dict(threshold=v, stopped_at=int(got[0]), expected_stop=s, total_steps=T, max_steps=mx, min_steps=mn, energies=en)
+
+    want = run(jnp.asarray(en[min(2, T)] * 1.5 + 1e-30))
+    got = tr(jx.fracarr(np.asarray(en[min(2, T)] * 1.5 + 1e-30)))
+    c.validate(np.asarray([float(jx.to_numeric(jx.lift(got[0])).reshape(-1)[0])]), np.asarray([float(want[0])]), "run_fdtd with EnergyThresholdCondition: final step")
+    assume = [thr > 0]
+    c.prove_eq("final time step == first step >= min_steps below the threshold, at most min(max_steps, total steps)", tf, s_star, assume, replay, key="loop-energy:stop-step")
+    tol = 1e-9 * scale
+    for nm, g, k in (("E", Ef, 0), ("H", Hf, 1), ("detector", Df, 2)):
+        c.prove_eq(f"state at stop == plain run of that many steps ({nm})", g, pick([p[k] for p in plain[:cap + 1]]), assume, replay, key=f"loop-energy:state:{nm}", tol=tol)
+    c.witness("twin: the threshold can let the run go to the cap", z3.And(thr > 0, sc.eq(jx.lift(tf).reshape(-1)[0], cap)), [])
+    if mn < cap:
+        c.witness("twin: the threshold can stop the run early", z3.And(thr > 0, sc.lt(jx.lift(tf).reshape(-1)[0], cap)), [])
